@@ -98,7 +98,8 @@ pub fn distinct_obj_calls(m: &AMeth) -> Option<Vec<MRef>> {
 	let calls = m.calls.as_ref()?;
 	let mut out: Vec<MRef> = vec![];
 	for c in calls {
-		if c.target.class.first() == Some(&('[' as u32)) { continue; }
+		if c.kind == CallKind::Dynamic { continue; }                     // invokedynamic: not a method invocation the rule counts
+		if c.target.class.first() == Some(&('[' as u32)) { continue; }   // a method of an array class: dropped
 		if !out.contains(&c.target) { out.push(c.target.clone()); }
 	}
 	Some(out)
@@ -229,14 +230,22 @@ pub fn check_add(jar: &[AClass], libs: &[Vec<AClass>], cal: &MMappings, maps: &M
 	let mut dev = vec![];
 	if got.ns != maps.ns || got.doc != maps.doc { dev.push("namespaces or top-level javadoc changed".to_string()); }
 	if got.classes.len() != maps.classes.len() { dev.push(format!("{} classes became {}", maps.classes.len(), got.classes.len())); return dev; }
-	for (c0, c1) in maps.classes.iter().zip(&got.classes) {
+	// The property is about which entries exist, not about their iteration order: classes are matched by
+	// their names row (every class of the input exactly once in the result), method entries as multisets.
+	let mut used = vec![false; got.classes.len()];
+	for c0 in &maps.classes {
 		let cname = c0.names[0].clone().unwrap_or_default();
-		if c0.names != c1.names || c0.doc != c1.doc || c0.fields != c1.fields { dev.push(format!("class {}: names, javadoc or fields changed", show(&cname))); continue; }
+		let Some(j) = (0..got.classes.len()).find(|&j| !used[j] && got.classes[j].names == c0.names) else {
+			dev.push(format!("class {}: no class with these names in the result", show(&cname))); continue;
+		};
+		used[j] = true;
+		let c1 = &got.classes[j];
+		if c0.doc != c1.doc || !same_multiset(&c0.fields, &c1.fields) { dev.push(format!("class {}: javadoc or fields changed", show(&cname))); continue; }
 		let is_delegate = |m: &MMeth| expect.contains_key(&(cname.clone(), m.names[0].clone().unwrap_or_default(), m.desc.clone()));
-		// entries not keyed by a delegate: unchanged, same relative order
-		let keep0: Vec<&MMeth> = c0.methods.iter().filter(|m| !is_delegate(m)).collect();
-		let keep1: Vec<&MMeth> = c1.methods.iter().filter(|m| !is_delegate(m)).collect();
-		if keep0 != keep1 { dev.push(format!("class {}: a method entry that is not keyed by a delegate was changed, added or removed", show(&cname))); }
+		// entries not keyed by a delegate: the same entries (in any order)
+		let keep0: Vec<MMeth> = c0.methods.iter().filter(|m| !is_delegate(m)).cloned().collect();
+		let keep1: Vec<MMeth> = c1.methods.iter().filter(|m| !is_delegate(m)).cloned().collect();
+		if !same_multiset(&keep0, &keep1) { dev.push(format!("class {}: a method entry that is not keyed by a delegate was changed, added or removed", show(&cname))); }
 		// entries keyed by a delegate
 		for ((ec, en, ed), (row, alts)) in &expect {
 			if *ec != cname { continue; }
@@ -246,10 +255,17 @@ pub fn check_add(jar: &[AClass], libs: &[Vec<AClass>], cal: &MMappings, maps: &M
 			let ok_row = if alts.len() == 1 { found[0].names == *row } else { alts.contains(&found[0].names) };
 			if !ok_row { dev.push(format!("class {}: delegate {}{} has names {:?}, expected {:?}", show(&cname), show(en), show(ed), show_row(&found[0].names), show_row(row))); }
 			let (doc, params) = match old { Some(o) => (o.doc.clone(), o.params.clone()), None => (None, vec![]) };
-			if found[0].doc != doc || found[0].params != params { dev.push(format!("class {}: javadoc or parameters of delegate {}{} changed", show(&cname), show(en), show(ed))); }
+			if found[0].doc != doc || !same_multiset(&found[0].params, &params) { dev.push(format!("class {}: javadoc or parameters of delegate {}{} changed", show(&cname), show(en), show(ed))); }
 		}
 	}
 	dev
+}
+
+/// equality of two lists as multisets
+fn same_multiset<T: PartialEq>(a: &[T], b: &[T]) -> bool {
+	if a.len() != b.len() { return false; }
+	let mut used = vec![false; b.len()];
+	a.iter().all(|x| match (0..b.len()).find(|&j| !used[j] && b[j] == *x) { Some(j) => { used[j] = true; true } None => false })
 }
 
 pub fn show_row(r: &NamesRow) -> String { format!("[{}]", r.iter().map(|o| o.as_ref().map(|s| show(s)).unwrap_or("-".into())).collect::<Vec<_>>().join(", ")) }
